@@ -99,6 +99,14 @@ class BrokerState:
                     # Already resolved / timed out: the step's event was re-queued
                     # at that moment and is restored with the queue.
                     continue
+                if any(
+                    x.event == waiter.event
+                    for x in [*worker_state.queue, *worker_state.in_progress]
+                ):
+                    # A re-run of the waiting step is already pending (e.g. the
+                    # state was snapshotted again right after a resume): it will
+                    # re-register the requirements, do not queue it twice.
+                    continue
                 if waiter.has_requirements and not waiter.requirements:
                     commands.append(
                         TickAddEvent(event=waiter.event, step_name=step_name)
